@@ -83,10 +83,12 @@ func (p wplan) String() string {
 		return fmt.Sprintf("disk full after %d bytes", p.k)
 	case "source":
 		return fmt.Sprintf("source read error at byte %d", p.k)
+	case "readonly":
+		return "link system without a StorageWriteOpener (read-only storage)"
 	}
 	s := fmt.Sprintf("%s #%d fails", p.what, p.k)
 	if p.flavour > 0 {
-		s += " with " + []string{"", "io.ErrUnexpectedEOF", "*fs.PathError{fs.ErrNotExist}", "wrapped context.DeadlineExceeded", "traversal.SkipMe{}", "io.EOF", "context.Canceled"}[p.flavour]
+		s += " with " + []string{"", "io.ErrUnexpectedEOF", "*fs.PathError{fs.ErrNotExist}", "wrapped context.DeadlineExceeded", "traversal.SkipMe{}", "io.EOF", "context.Canceled", "an error wrapping io.EOF"}[p.flavour]
 	}
 	return s
 }
@@ -407,6 +409,12 @@ func (c16) Run(ts *tape.Set, tier Tier) *Result {
 			}
 		}
 		w := world.New(st, false)
+		if p != nil && p.what == "readonly" {
+			// a link system over read-only storage: there is no write opener
+			// at all, every store must fail (ipld-prime reports a set-up error)
+			w.LS.StorageWriteOpener = nil
+			st.Fired["no-write-storage"]++
+		}
 		old := builder.DefaultLinksPerBlock
 		builder.DefaultLinksPerBlock = width
 		o.panicked, o.site, o.pmsg = guard(func() {
@@ -592,7 +600,7 @@ func (c16) Run(ts *tape.Set, tier Tier) *Result {
 		plans = append(plans, wplan{what: "open", k: k})
 		if k%2 == 1 || steps[store.WOpen] <= 3 {
 			// the same fault reported with a well-known error value
-			plans = append(plans, wplan{what: []string{"open", "commit", "torn"}[k%3], k: k, after: 2, flavour: []int{1, 2, 3, 5, 6}[(k/2)%5]})
+			plans = append(plans, wplan{what: []string{"open", "commit", "torn"}[k%3], k: k, after: 2, flavour: []int{1, 2, 3, 5, 6, 7}[(k/2)%6]})
 		}
 	}
 	// always include the very last (root) block
@@ -614,6 +622,7 @@ func (c16) Run(ts *tape.Set, tier Tier) *Result {
 		plans = append(plans, wplan{what: "crash", k: e})
 	}
 	plans = append(plans, wplan{what: "crash", k: sc.Writes - 1})
+	plans = append(plans, wplan{what: "readonly"})
 	total := 0
 	for _, c := range base.st.Keys() {
 		if !E[c.KeyString()] {
@@ -677,6 +686,8 @@ func (c16) Run(ts *tape.Set, tier Tier) *Result {
 			if fired {
 				res.probe("enospc")
 			}
+		case "readonly":
+			res.probe("link-system-without-write-storage")
 		case "source":
 			if fired {
 				res.probe("source-error")
